@@ -433,6 +433,18 @@ def pdf_variants(kind, Sig, mu, which=("fresh", "Sigma+Lambda", "Sigma+Lambda+ln
                     d = d.slice(jnp.arange(R)[::-1])
                 return d
             out.append((w, hb, hmu[::-1] if then == "slice" else hmu, hSig))
+        elif w == "posterior_identity":
+            # the posterior p(x|y) of an identity-mean observation with CORRELATED noise (general identity class), the prior
+            # being this density (possibly of the diagonal class): conditional transformation, then conditioning on y
+            pN = np.array([[1.0 if i == j else 0.4 for j in range(D)] for i in range(D)]) * 0.8
+            py = al.int_vector(D, salt=6) * 0.5 + 0.25
+            pmu, pSig = [], []
+            for r in range(R):
+                Lr, Ln = np.linalg.inv(Sig[r]), np.linalg.inv(pN)
+                Sp = np.linalg.inv(Lr + Ln)
+                pSig.append(0.5 * (Sp + Sp.T))
+                pmu.append(Sp @ (Lr @ mu[r] + Ln @ py))
+            out.append((w, lambda pN=pN, py=py: conditional.ConditionalIdentityGaussianPDF(Sigma=J(pN[None])).affine_conditional_transformation(mk_pdf(kind, Sig, mu)).condition_on_x(J(py[None])), np.array(pmu), np.array(pSig)))
         elif w == "joint_of_cond" and D >= 2:
             # the joint density produced by a linear conditional p(x2|x1) applied to priors p_r(x1) (layout 1 x R)
             Dx = D // 2
